@@ -36,7 +36,7 @@ def make_batches(sc):
     return out
 
 
-def build(spec, stream, start, example_rows=0):
+def build(spec, stream, start, example_rows=0, keep_state=True):
     import pandas as pd
     from streamz.dataframe import DataFrame
     from streamz.dataframe import aggregations as agg
@@ -76,6 +76,10 @@ def build(spec, stream, start, example_rows=0):
         r = col(sdf.rolling(spec['window'], with_state=True, start=() if start is None else start))
         return getattr(r, op)(), True
     if k == 'window':
+        if not keep_state:
+            # the last stage of a resumed run does not have to expose its state again
+            w = col(sdf.window(n=spec.get('n'), value=spec.get('value'), start=start))
+            return (w.size if op == 'size' else getattr(w, op)()), False
         w = col(sdf.window(n=spec.get('n'), value=spec.get('value'), with_state=True, start=start))
         if op == 'size':
             return w.size, True
@@ -95,13 +99,13 @@ class _ConsumerFailed(Exception):
     pass
 
 
-def run_pipeline(spec, batches, start, example_rows=0, snapshot=True, fail_at=()):
+def run_pipeline(spec, batches, start, example_rows=0, snapshot=True, fail_at=(), keep_state=True):
     """-> list of (state snapshot, result) per batch.  fail_at: batch numbers at which a second consumer,
     attached after the recorder, raises; the producer catches that and carries on (the recorder has the
     checkpoint of that batch, so the run must continue from exactly that state)"""
     from streamz import Stream
     stream = Stream()
-    out, with_state = build(spec, stream, start, example_rows)
+    out, with_state = build(spec, stream, start, example_rows, keep_state)
     L = out.stream.sink_to_list()
     res = []
     if fail_at:
@@ -208,7 +212,9 @@ def evaluate(prop, sc, want_trace=False):
                 results = base[pos:k]
             else:
                 try:
-                    results = run_pipeline(spec, seg, state if by_ref else copy.deepcopy(state), ex_rows, snapshot=not by_ref)
+                    last_stage = ci == len(chain)
+                    results = run_pipeline(spec, seg, state if by_ref else copy.deepcopy(state), ex_rows, snapshot=not by_ref,
+                                           keep_state=not (last_stage and sc.get('resume_without_state')))
                     runs += 1
                 except Exception as e:     # noqa
                     V.append(Violation('C12', 'C12.resume_raised', 0,
@@ -324,6 +330,7 @@ def generate(prop, rng, seed, index, tier):
     return {'format': 1, 'family': 'aggstate', 'property': 'C12', 'seed': seed, 'index': index,
             'agg': spec, 'batches': batches, 'chains': chains,
             'example_rows': rng.choice([0, 0, 1, 2, 3]), 'by_reference': rng.random() < 0.3,
+            'resume_without_state': spec['kind'] == 'window' and rng.random() < 0.3,
             'consumer_fails_at': sorted(set(rng.randrange(0, 6) for _ in range(rng.randrange(1, 3)))) if rng.random() < 0.2 else []}
 
 
